@@ -169,10 +169,6 @@ def nrm (f : File) (t : Tri) : Tri :=
   let t1 := disT f t
   if t1.2.1 = some f then rodT t1 else t1
 
-/-- a file was loaded and no longer defines the name (l.131-133) -/
-def ndrop (f : File) (t : Tri) : Tri :=
-  if t.2.1 = some f then rodT (disT f t) else t
-
 /-- l.114-126 would raise (None.append) or leave the typed model -/
 def bodyFails (f : File) (t : Tri) : Bool :=
   t.1.isSome && decide (t.2.1 ≠ some f) && (t.2.2.isNone || t.2.1.isNone)
@@ -262,41 +258,6 @@ theorem nrel_load (f : File) (d : PolId) (t : Tri) (L : List (File × PolId)) (h
       rw [List.filter_cons, if_pos (by simpa using hof), List.filter_cons, if_pos (by simpa using hof)]
       simp only [tops, tops_filter]
       rw [filter_ne_comm]
-
-/-- a file was loaded and does not define the name; if it used to define it, it was the most recent
-definer (no shadowed drop) -/
-theorem nrel_drop (f : File) (t : Tri) (L : List (File × PolId)) (h : NRel t L)
-    (hg : f ∈ L.map Prod.fst → (L.head?).map Prod.fst = some f) :
-    NRel (ndrop f t) (L.filter (fun x => decide (x.1 ≠ f))) := by
-  obtain ⟨st, mp, ca⟩ := t
-  cases st <;> cases mp <;> cases ca <;> simp only [NRel] at h <;> try exact h.elim
-  · subst h; simp [ndrop, NRel]
-  · rename_i pol o stk
-    subst h
-    by_cases hof : o = f
-    · subst hof
-      have hb : ndrop o (some pol, some o, some stk)
-          = rodT (some pol, some o, some (stk.filter (fun e => decide (e.file ≠ o)))) := by
-        simp [ndrop, disT]
-      rw [hb, List.filter_cons, if_neg (by simp), tops_owner_free]
-      exact nrel_pop_owner o pol stk
-    · have hb : ndrop f (some pol, some o, some stk) = (some pol, some o, some stk) := by
-        simp [ndrop, hof]
-      rw [hb]
-      have hnot : f ∉ ((o, pol) :: tops (stk.filter (fun e => decide (e.file ≠ o)))).map Prod.fst := by
-        intro hm
-        have := hg hm
-        simp at this
-        exact hof this
-      have : ((o, pol) :: tops (stk.filter (fun e => decide (e.file ≠ o)))).filter (fun x => decide (x.1 ≠ f))
-          = (o, pol) :: tops (stk.filter (fun e => decide (e.file ≠ o))) := by
-        apply List.filter_eq_self.mpr
-        intro x hx
-        have : x.1 ≠ f := by
-          intro hxf; apply hnot; exact List.mem_map.mpr ⟨x, hx, hxf⟩
-        simpa using this
-      rw [this]
-      simp only [NRel]
 
 /-! ### the monitor's primitives seen from one name -/
 
@@ -588,27 +549,11 @@ theorem loadLoop_ok (R : List Name) (f : File) :
     · have := hb d (List.mem_cons_self ..) hr
       rw [this] at hfail; cases hfail
 
-/-- l.131-133 seen from one name -/
-theorem tri_drop_act (f : File) (s : MonState) (q p : Name) :
-    tri (restoreOrDelete (disassociate s q f) q) p = if q = p then rodT (disT f (tri s p)) else tri s p := by
-  rw [tri_restoreOrDelete, tri_disassociate]
-  by_cases hq : q = p <;> simp [hq]
-
-theorem frame_drop_all (f : File) (s : MonState) (l : List Name) :
-    let s' := l.foldl (fun s p => restoreOrDelete (disassociate s p f) p) s
-    SameFrame s s' ∧ ((dkeys s.map).Nodup → (dkeys s'.map).Nodup) := by
-  apply foldl_inv (fun s' => SameFrame s s' ∧ ((dkeys s.map).Nodup → (dkeys s'.map).Nodup))
-  · intro s' q ⟨h1, h2⟩
-    obtain ⟨g1, g2, _⟩ := frame_disassociate s' q f
-    obtain ⟨k1, k2⟩ := frame_restoreOrDelete (disassociate s' q f) q
-    exact ⟨(h1.trans g1).trans k1, fun h => k2 (by rw [g2]; exact h2 h)⟩
-  · exact ⟨SameFrame.refl s, id⟩
-
 /-- what a successful load of `defs` from `f` does to one name's view (l.99-133) -/
 def fileT (R : List Name) (f : File) (defs : List (Name × PolId)) (p : Name) (t : Tri) : Tri :=
   match dget defs p with
   | some pol => if R.contains p then t else bodyT f pol t
-  | none => ndrop f t
+  | none => nrm f t
 
 /-- **a file is loaded**, seen from one name -/
 theorem loadFile_ok (R : List Name) (s : MonState) (f : File) (defs : List (Name × PolId))
@@ -619,11 +564,31 @@ theorem loadFile_ok (R : List Name) (s : MonState) (f : File) (defs : List (Name
   obtain ⟨s1, h1, hf1, hn1, ht1⟩ := loadLoop_ok R f defs s hd hb
   unfold loadFile
   simp only [bind, Except.bind, h1, pure, Except.pure]
-  refine ⟨_, rfl, hf1.trans (frame_drop_all f s1 _).1, (frame_drop_all f s1 _).2 (hn1 hn), ?_⟩
+  -- the disassociate loop of l.135-137
+  generalize hstale : (dkeys s1.cache).filter (fun p => !(dkeys defs).contains p) = stale
+  obtain ⟨a1, a2, _⟩ := frame_disassociate_all s1 f stale
+  have ht2 : ∀ p, tri (stale.foldl (fun s p => disassociate s p f) s1) p =
+      if p ∈ dkeys defs then tri s1 p else disT f (tri s1 p) := by
+    intro p
+    rw [foldl_tri_idem (fun s p => disassociate s p f) (disT f) (disT_idem f) (fun s q p => tri_disassociate s q p f)]
+    by_cases hin : p ∈ dkeys defs
+    · rw [if_pos hin, if_neg]
+      rw [← hstale, List.mem_filter]
+      intro h; simp [hin] at h
+    · rw [if_neg hin]
+      by_cases hc : p ∈ dkeys s1.cache
+      · rw [if_pos]; rw [← hstale, List.mem_filter]; exact ⟨hc, by simp [hin]⟩
+      · rw [if_neg]
+        · exact (disT_absent f _ ((dget_none_iff _ _).mpr hc)).symm
+        · rw [← hstale, List.mem_filter]; exact fun h => hc h.1
+  generalize stale.foldl (fun s p => disassociate s p f) s1 = s2 at a1 a2 ht2 ⊢
+  have hn2 : (dkeys s2.map).Nodup := by rw [a2]; exact hn1 hn
+  obtain ⟨b1, b2⟩ := frame_restore_all s2 ((ownedBy s f).filter (fun p => !(dkeys defs).contains p))
+  refine ⟨_, rfl, (hf1.trans a1).trans b1, b2 hn2, ?_⟩
   intro p
   have hgn : ((ownedBy s f).filter (fun p => !(dkeys defs).contains p)).Nodup :=
     List.filter_sublist.nodup (nodup_ownedBy s f hn)
-  rw [foldl_tri _ (fun t => rodT (disT f t)) (tri_drop_act f) _ s1 p hgn]
+  rw [foldl_tri restoreOrDelete rodT tri_restoreOrDelete _ s2 p hgn]
   have hmem : p ∈ (ownedBy s f).filter (fun p => !(dkeys defs).contains p) ↔
       dget s.map p = some f ∧ p ∉ dkeys defs := by
     rw [List.mem_filter, mem_ownedBy s f p hn]; simp
@@ -631,15 +596,16 @@ theorem loadFile_ok (R : List Name) (s : MonState) (f : File) (defs : List (Name
   | some pol =>
     have hin : p ∈ dkeys defs :=
       Classical.byContradiction (fun h => by rw [(dget_none_iff _ _).mpr h] at hdp; cases hdp)
-    rw [if_neg (fun h => (hmem.mp h).2 hin), ht1]
+    rw [if_neg (fun h => (hmem.mp h).2 hin), ht2, if_pos hin, ht1]
     simp [fileT, loadT, hdp]
   | none =>
     have hnot : p ∉ dkeys defs := (dget_none_iff _ _).mp hdp
+    have h1p : tri s1 p = tri s p := by rw [ht1]; simp [loadT, hdp]
     by_cases ho : dget s.map p = some f
-    · rw [if_pos (hmem.mpr ⟨ho, hnot⟩), ht1]
-      simp [fileT, loadT, hdp, ho, ndrop, tri]
-    · rw [if_neg (fun h => ho (hmem.mp h).1), ht1]
-      simp [fileT, loadT, hdp, ho, ndrop, tri]
+    · rw [if_pos (hmem.mpr ⟨ho, hnot⟩), ht2, if_neg hnot, h1p]
+      simp [fileT, hdp, nrm, disT, tri, ho]
+    · rw [if_neg (fun h => ho (hmem.mp h).1), ht2, if_neg hnot, h1p]
+      simp [fileT, hdp, nrm, disT, tri, ho]
 
 /-! ### specification side -/
 
@@ -668,35 +634,6 @@ theorem definers_cons (p : Name) (f : File) (defs : List (Name × PolId)) (loade
       | none => definers p loaded := by
   simp only [definers, List.filterMap_cons]
   cases dget defs p <;> rfl
-
-theorem mem_definers (p : Name) (loaded : List (File × List (Name × PolId))) (f : File)
-    (h : f ∈ (definers p loaded).map Prod.fst) : ∃ old, (f, old) ∈ loaded ∧ (dget old p).isSome := by
-  simp only [definers, List.mem_map, List.mem_filterMap] at h
-  obtain ⟨x, ⟨⟨g, old⟩, hm, hx⟩, rfl⟩ := h
-  cases hd : dget old p with
-  | none => simp [hd] at hx
-  | some d =>
-    simp [hd] at hx; subst hx
-    exact ⟨old, hm, by simp [hd]⟩
-
-/-- the guard, read at one name: when no shadowed drop is flagged, a file that stops defining `p`
-was `p`'s most recent definer -/
-theorem guard_at_name (R : List Name) (loaded : List (File × List (Name × PolId))) (f : File)
-    (defs : List (Name × PolId)) (hn : (dkeys loaded).Nodup) (hg : isShadowedDrop R loaded f defs = false)
-    (p : Name) (hR : R.contains p = false) (hd : dget defs p = none)
-    (hm : f ∈ (definers p loaded).map Prod.fst) :
-    ((definers p loaded).head?).map Prod.fst = some f := by
-  obtain ⟨old, hmem, hsome⟩ := mem_definers p loaded f hm
-  have hget : dget loaded f = some old := dget_of_mem_nodup _ _ _ hn hmem
-  simp only [isShadowedDrop, hget] at hg
-  cases hdp : dget old p with
-  | none => simp [hdp] at hsome
-  | some d =>
-    have hin : (p, d) ∈ old := dget_some_mem _ _ _ hdp
-    rw [List.any_eq_false] at hg
-    have := hg (p, d) hin
-    simp only [hR, hd, Bool.not_false, Option.isNone_none, Bool.true_and] at this
-    simpa using this
 
 theorem mem_insertSorted (a b : String) (l : List String) : b ∈ insertSorted a l ↔ b = a ∨ b ∈ l := by
   induction l with
@@ -783,12 +720,6 @@ theorem inv_remove_all (R : List Name) (store0 : List (Name × PolId)) :
   | nil => intro s sp h; exact h
   | cons f r ih => intro s sp h; exact ih _ _ (inv_remove R store0 s sp f h)
 
-theorem flag_remove_all : ∀ (l : List File) (sp : SpecState), (l.foldl specRemove sp).shadowedDrop = sp.shadowedDrop := by
-  intro l
-  induction l with
-  | nil => intro sp; rfl
-  | cons f r ih => intro sp; rw [List.foldl_cons, ih]; rfl
-
 theorem seen_remove_all : ∀ (l : List File) (sp : SpecState) (g : File),
     g ∈ dkeys (l.foldl specRemove sp).seen ↔ g ∈ dkeys sp.seen ∧ g ∉ l := by
   intro l
@@ -815,14 +746,10 @@ theorem seen_added : ∀ (l : List File) (ts : List (File × Nat)) (g : File),
     · rintro ((a | a) | a); exact Or.inl a; exact Or.inr (Or.inl a); exact Or.inr (Or.inr a)
     · rintro (a | a | a); exact Or.inl (Or.inl a); exact Or.inl (Or.inr a); exact Or.inr a
 
-theorem ndrop_reserved (f : File) (x : Option PolId) : ndrop f (x, none, none) = (x, none, none) := by
-  simp [ndrop]
-
 /-- one file of the load loop -/
 theorem inv_visit (R : List Name) (store0 : List (Name × PolId)) (snap : DirSnapshot) (s : MonState) (sp : SpecState)
     (f : File) (h : Inv R store0 s sp) (hw : snap.WF) (hc : snap.NoCrash)
-    (hsnap : f ∈ dkeys snap) (hts : f ∈ dkeys s.timestamps)
-    (hflag : (specVisit R snap sp f).shadowedDrop = false) :
+    (hsnap : f ∈ dkeys snap) (hts : f ∈ dkeys s.timestamps) :
     ∃ s', visit R snap s f = .ok s' ∧ Inv R store0 s' (specVisit R snap sp f) ∧
       (∀ g, g ∈ dkeys s'.timestamps ↔ g ∈ dkeys s.timestamps) := by
   cases hsn : dget snap f with
@@ -835,10 +762,10 @@ theorem inv_visit (R : List Name) (store0 : List (Name × PolId)) (snap : DirSna
       have hseen' : dget sp.seen f = some t0 := by rw [← h.ts]; exact hseen
       unfold visit
       simp only [hsn, hseen]
-      unfold specVisit at hflag ⊢
-      simp only [hsn, hseen'] at hflag ⊢
+      unfold specVisit
+      simp only [hsn, hseen']
       by_cases hgt : t > t0
-      · simp only [if_pos hgt] at hflag ⊢
+      · simp only [if_pos hgt]
         have hkeys : ∀ g, g ∈ dkeys (dset s.timestamps f t) ↔ g ∈ dkeys s.timestamps := by
           intro g; rw [mem_dkeys_dset]
           constructor
@@ -853,7 +780,6 @@ theorem inv_visit (R : List Name) (store0 : List (Name × PolId)) (snap : DirSna
         | crash cls => exact absurd rfl (hc _ hmem cls)
         | ok defs =>
           have hdn : (dkeys defs).Nodup := hw.2 _ hmem
-          simp only [Bool.or_eq_false_iff] at hflag
           generalize hs1 : ({ s with timestamps := dset s.timestamps f t } : MonState) = s1
           have htri : ∀ q, tri s1 q = tri s q := by intro q; subst hs1; rfl
           have hmap1 : s1.map = s.map := by subst hs1; rfl
@@ -881,61 +807,32 @@ theorem inv_visit (R : List Name) (store0 : List (Name × PolId)) (snap : DirSna
               exact (nrel_load f pol _ _ (h.names p hp)).2
             | none =>
               simp only [fileT, hdp]
-              apply nrel_drop f _ _ (h.names p hp)
-              exact guard_at_name R sp.loaded f defs h.loadedNodup hflag.2 p hp hdp
+              exact nrel_rm f _ _ (h.names p hp)
           · intro p hp
             rw [ht, htri, h.reserved p hp]
             cases hdp : dget defs p with
             | some pol => simp only [fileT, hdp, hp, ↓reduceIte]
-            | none => simp only [fileT, hdp]; exact ndrop_reserved f _
+            | none => simp only [fileT, hdp]; exact nrm_reserved f _
           · intro g; rw [hfr.ts, hts1]; exact hkeys g
-      · simp only [if_neg hgt] at hflag ⊢
+      · simp only [if_neg hgt]
         exact ⟨s, rfl, h, fun _ => Iff.rfl⟩
-
-theorem flag_visit_mono (R : List Name) (snap : DirSnapshot) (sp : SpecState) (f : File)
-    (h : (specVisit R snap sp f).shadowedDrop = false) : sp.shadowedDrop = false := by
-  unfold specVisit at h
-  cases hsn : dget snap f with
-  | none => simpa [hsn] using h
-  | some tp =>
-    obtain ⟨t, parse⟩ := tp
-    cases hseen : dget sp.seen f with
-    | none => simpa [hsn, hseen] using h
-    | some t0 =>
-      simp only [hsn, hseen] at h
-      by_cases hgt : t > t0
-      · simp only [if_pos hgt] at h
-        cases parse with
-        | ok defs => simp only [Bool.or_eq_false_iff] at h; exact h.1
-        | rejected => exact h
-        | crash c => exact h
-      · simpa [if_neg hgt] using h
-
-theorem flag_visit_all_mono (R : List Name) (snap : DirSnapshot) :
-    ∀ (l : List File) (sp : SpecState), (l.foldl (specVisit R snap) sp).shadowedDrop = false → sp.shadowedDrop = false := by
-  intro l
-  induction l with
-  | nil => intro sp h; exact h
-  | cons f r ih => intro sp h; exact flag_visit_mono R snap sp f (ih _ h)
 
 /-- the load loop l.94-133 -/
 theorem inv_visit_all (R : List Name) (store0 : List (Name × PolId)) (snap : DirSnapshot) (hw : snap.WF) (hc : snap.NoCrash) :
     ∀ (l : List File) (s : MonState) (sp : SpecState), Inv R store0 s sp →
       (∀ f ∈ l, f ∈ dkeys snap ∧ f ∈ dkeys s.timestamps) →
-      (l.foldl (specVisit R snap) sp).shadowedDrop = false →
       ∃ s', l.foldlM (visit R snap) s = .ok s' ∧ Inv R store0 s' (l.foldl (specVisit R snap) sp) ∧
         (∀ g, g ∈ dkeys s'.timestamps ↔ g ∈ dkeys s.timestamps) := by
   intro l
   induction l with
-  | nil => intro s sp h _ _; exact ⟨s, rfl, h, fun _ => Iff.rfl⟩
+  | nil => intro s sp h _; exact ⟨s, rfl, h, fun _ => Iff.rfl⟩
   | cons f r ih =>
-    intro s sp h hl hflag
-    rw [List.foldl_cons] at hflag ⊢
-    have hf1 := flag_visit_all_mono R snap r _ hflag
+    intro s sp h hl
+    rw [List.foldl_cons]
     obtain ⟨s1, hv, hinv, hkeys⟩ := inv_visit R store0 snap s sp f h hw hc (hl f (List.mem_cons_self ..)).1
-      (hl f (List.mem_cons_self ..)).2 hf1
+      (hl f (List.mem_cons_self ..)).2
     obtain ⟨s2, hv2, hinv2, hkeys2⟩ := ih s1 _ hinv
-      (fun g hg => ⟨(hl g (List.mem_cons_of_mem _ hg)).1, (hkeys g).mpr (hl g (List.mem_cons_of_mem _ hg)).2⟩) hflag
+      (fun g hg => ⟨(hl g (List.mem_cons_of_mem _ hg)).1, (hkeys g).mpr (hl g (List.mem_cons_of_mem _ hg)).2⟩)
     exact ⟨s2, by rw [List.foldlM_cons, hv]; exact hv2, hinv2, fun g => (hkeys2 g).trans (hkeys g)⟩
 
 theorem files_visit (R : List Name) (snap : DirSnapshot) (sp : SpecState) (f : File) :
@@ -954,35 +851,34 @@ theorem files_visit_all (R : List Name) (snap : DirSnapshot) :
   | nil => intro sp; rfl
   | cons f r ih => intro sp; rw [List.foldl_cons, ih, files_visit]
 
-/-- **one scan**: the monitor follows the specification as long as no shadowed drop is flagged -/
+/-- **one scan**: the monitor follows the specification -/
 theorem inv_scan (R : List Name) (store0 : List (Name × PolId)) (s : MonState) (sp : SpecState) (snap : DirSnapshot)
-    (h : Inv R store0 s sp) (hkf : ∀ f, f ∈ dkeys s.timestamps → f ∈ s.files) (hw : snap.WF) (hc : snap.NoCrash)
-    (hflag : (specScan R sp snap).shadowedDrop = false) :
+    (h : Inv R store0 s sp) (hkf : ∀ f, f ∈ dkeys s.timestamps → f ∈ s.files) (hw : snap.WF) (hc : snap.NoCrash) :
     ∃ s', scanE R s snap = .ok s' ∧ Inv R store0 s' (specScan R sp snap) ∧
       (∀ f, f ∈ dkeys s'.timestamps → f ∈ s'.files) := by
-  obtain ⟨seen, sfiles, loaded, flag⟩ := sp
+  obtain ⟨seen, sfiles, loaded⟩ := sp
   have e1 : s.timestamps = seen := h.ts
   have e2 : s.files = sfiles := h.files
   subst e1 e2
-  unfold specScan at hflag ⊢
+  unfold specScan
   unfold scanE
-  simp only at hflag ⊢
-  generalize hfiles : sortFiles (dkeys snap) = files at hflag ⊢
-  generalize hadded : files.filter (fun f => !s.files.contains f) = added at hflag ⊢
-  generalize hremoved : s.files.filter (fun f => !files.contains f) = removed at hflag ⊢
+  simp only
+  generalize hfiles : sortFiles (dkeys snap) = files
+  generalize hadded : files.filter (fun f => !s.files.contains f) = added
+  generalize hremoved : s.files.filter (fun f => !files.contains f) = removed
   generalize hs1 : ({ s with timestamps := added.foldl (fun ts f => dset ts f 0) s.timestamps } : MonState) = s1
   generalize hsp1 : ({ seen := added.foldl (fun ts f => dset ts f 0) s.timestamps, files := s.files,
-                       loaded := loaded, shadowedDrop := flag } : SpecState) = sp1 at hflag ⊢
+                       loaded := loaded } : SpecState) = sp1
   have inv1 : Inv R store0 s1 sp1 := by
     subst hs1 hsp1
     exact ⟨rfl, rfl, h.mapNodup, h.loadedNodup, h.names, h.reserved⟩
   have inv2 := inv_remove_all R store0 removed s1 sp1 inv1
   generalize hs2 : removed.foldl removeFile s1 = s2 at inv2 ⊢
-  generalize hsp2 : removed.foldl specRemove sp1 = sp2 at inv2 hflag ⊢
+  generalize hsp2 : removed.foldl specRemove sp1 = sp2 at inv2 ⊢
   have inv3 : Inv R store0 { s2 with files := files } { sp2 with files := files } :=
     ⟨inv2.ts, rfl, inv2.mapNodup, inv2.loadedNodup, inv2.names, inv2.reserved⟩
   have hl : sortFiles (dkeys sp2.seen) = sortFiles (dkeys s2.timestamps) := by rw [inv2.ts]
-  rw [hl] at hflag ⊢
+  rw [hl]
   -- every file still tracked is in the directory
   have hside : ∀ g, g ∈ dkeys s2.timestamps → g ∈ files := by
     intro g hg
@@ -1007,49 +903,28 @@ theorem inv_scan (R : List Name) (store0 : List (Name × PolId)) (s : MonState) 
       have := hside g hg'
       rw [← hfiles] at this
       exact (mem_sortFiles _ _).mp this)
-    hflag
   refine ⟨s', hv, hinv, ?_⟩
   intro g hg
   rw [hinv.files, files_visit_all]
   exact hside g ((hkeys g).mp hg)
 
-theorem flag_scan_mono (R : List Name) (sp : SpecState) (snap : DirSnapshot)
-    (h : (specScan R sp snap).shadowedDrop = false) : sp.shadowedDrop = false := by
-  unfold specScan at h
-  simp only at h
-  have := flag_visit_all_mono R snap _ _ h
-  simp only at this
-  rw [flag_remove_all] at this
-  exact this
-
-theorem flag_run_mono (R : List Name) : ∀ (h : List DirSnapshot) (sp : SpecState),
-    (h.foldl (specScan R) sp).shadowedDrop = false → sp.shadowedDrop = false := by
-  intro h
-  induction h with
-  | nil => intro sp hf; exact hf
-  | cons d r ih => intro sp hf; exact flag_scan_mono R sp d (ih _ hf)
-
-/-- **histories**: as long as no shadowed drop is flagged, every scan ends normally and the
-invariant holds after it -/
+/-- **histories**: every scan ends normally and the invariant holds after it -/
 theorem inv_run (R : List Name) (store0 : List (Name × PolId)) :
     ∀ (h : List DirSnapshot) (s : MonState) (sp : SpecState), Inv R store0 s sp →
       (∀ f, f ∈ dkeys s.timestamps → f ∈ s.files) → (∀ d ∈ h, d.WF ∧ d.NoCrash) →
-      (h.foldl (specScan R) sp).shadowedDrop = false →
       Inv R store0 (h.foldl (scan R) s) (h.foldl (specScan R) sp) ∧
       (∀ f, f ∈ dkeys (h.foldl (scan R) s).timestamps → f ∈ (h.foldl (scan R) s).files) := by
   intro h
   induction h with
-  | nil => intro s sp hi hk _ _; exact ⟨hi, hk⟩
+  | nil => intro s sp hi hk _; exact ⟨hi, hk⟩
   | cons d r ih =>
-    intro s sp hi hk hd hf
-    rw [List.foldl_cons] at hf ⊢
-    rw [List.foldl_cons]
-    have hf1 := flag_run_mono R r _ hf
+    intro s sp hi hk hd
+    rw [List.foldl_cons, List.foldl_cons]
     obtain ⟨s1, hs1, hi1, hk1⟩ := inv_scan R store0 s sp d hi hk (hd d (List.mem_cons_self ..)).1
-      (hd d (List.mem_cons_self ..)).2 hf1
+      (hd d (List.mem_cons_self ..)).2
     have : scan R s d = s1 := by simp [scan, hs1]
     rw [this]
-    exact ih s1 _ hi1 hk1 (fun d' hd' => hd d' (List.mem_cons_of_mem _ hd')) hf
+    exact ih s1 _ hi1 hk1 (fun d' hd' => hd d' (List.mem_cons_of_mem _ hd'))
 
 /-- what the invariant says about the store -/
 theorem store_of_inv (R : List Name) (store0 : List (Name × PolId)) (s : MonState) (sp : SpecState)
@@ -1168,9 +1043,11 @@ theorem rinv_loadFile (R : List Name) (store0 : List (Name × PolId)) (s : MonSt
     simp only [bind, Except.bind, pure, Except.pure]
     have hq : ∀ q ∈ (ownedBy s f).filter (fun p => !(dkeys defs).contains p), R.contains q = false :=
       fun q hq => owned_not_reserved R store0 s f h q (List.mem_filter.mp hq).1
-    exact foldl_inv_mem (RInv R store0) (fun q => R.contains q = false)
-      (fun s p => restoreOrDelete (disassociate s p f) p)
-      (fun s q hq hs => rinv_restoreOrDelete R store0 _ q hq (rinv_disassociate R store0 s q f hs)) _ _ hq h1
+    have h2 := foldl_inv (RInv R store0) (fun s p => disassociate s p f)
+      (fun s q hs => rinv_disassociate R store0 s q f hs)
+      ((dkeys s1.cache).filter (fun p => !(dkeys defs).contains p)) s1 h1
+    exact foldl_inv_mem (RInv R store0) (fun q => R.contains q = false) restoreOrDelete
+      (fun s q hq hs => rinv_restoreOrDelete R store0 s q hq hs) _ _ hq h2
 
 theorem rinv_visit (R : List Name) (store0 : List (Name × PolId)) (snap : DirSnapshot) (s : MonState) (f : File)
     (h : RInv R store0 s) : Holds (RInv R store0) (visit R snap s f) := by
@@ -1303,20 +1180,6 @@ theorem coh_nrm (f : File) (t : Tri) (h : Coh t) : Coh (nrm f t) := by
       cases hst : stk.filter (fun e => decide (e.file ≠ o)) <;> simp [rodT, Coh]
     · rw [nrm_other f o pol stk hof]; simp [Coh]
 
-theorem coh_ndrop (f : File) (t : Tri) (h : Coh t) : Coh (ndrop f t) := by
-  obtain ⟨a, b, c⟩ := t
-  cases a <;> cases b <;> cases c <;> simp only [Coh] at h <;> try exact h.elim
-  · simp [ndrop, Coh]
-  · rename_i pol o stk
-    by_cases hof : o = f
-    · subst hof
-      have : ndrop o (some pol, some o, some stk) = rodT (some pol, some o, some (stk.filter (fun e => decide (e.file ≠ o)))) := by
-        simp [ndrop, disT]
-      rw [this]
-      cases hst : stk.filter (fun e => decide (e.file ≠ o)) <;> simp [rodT, Coh]
-    · have : ndrop f (some pol, some o, some stk) = (some pol, some o, some stk) := by simp [ndrop, hof]
-      rw [this]; simp [Coh]
-
 theorem coh_body (f : File) (pol : PolId) (t : Tri) (h : Coh t) : bodyFails f t = false ∧ Coh (bodyT f pol t) := by
   obtain ⟨a, b, c⟩ := t
   cases a <;> cases b <;> cases c <;> simp only [Coh] at h <;> try exact h.elim
@@ -1386,7 +1249,7 @@ theorem cinv_visit (R : List Name) (snap : DirSnapshot) (hw : snap.WF) (s : MonS
             rw [ht]
             cases hdp : dget defs p with
             | some pol => simp only [fileT, hdp, hp]; exact (coh_body f pol _ (hc1.names p hp)).2
-            | none => simp only [fileT, hdp]; exact coh_ndrop f _ (hc1.names p hp)
+            | none => simp only [fileT, hdp]; exact coh_nrm f _ (hc1.names p hp)
           · intro p hp
             rw [ht]
             have := hc1.reserved p hp
@@ -1396,7 +1259,7 @@ theorem cinv_visit (R : List Name) (snap : DirSnapshot) (hw : snap.WF) (s : MonS
             obtain ⟨rfl, rfl⟩ := this
             cases hdp : dget defs p with
             | some pol => simp only [fileT, hdp, hp, ↓reduceIte]
-            | none => simp only [fileT, hdp]; rw [ndrop_reserved]
+            | none => simp only [fileT, hdp]; rw [nrm_reserved]
           · intro g hg; rw [hfr.ts] at hg; rw [hfr.files]; exact htf1 g hg
           · intro s'' hs''
             cases hs''
